@@ -32,6 +32,9 @@ pub struct O {
     m: M,
     l: L,
     large: bool,
+    /// the options also carry the ZipCrypto password (with_deprecated_encryption)
+    #[serde(default)]
+    pw: bool,
 }
 impl O {
     fn level(&self) -> Option<i32> {
@@ -55,7 +58,19 @@ impl O {
             M::Aes => CompressionMethod::Aes,
             M::Unsupported14 => CompressionMethod::Unsupported(14),
         };
-        FileOptions::default().compression_method(m).compression_level(self.level()).large_file(self.large).last_modified_time(zip::DateTime::default())
+        let o = FileOptions::default().compression_method(m).compression_level(self.level()).large_file(self.large).last_modified_time(zip::DateTime::default());
+        if self.pw {
+            o.with_deprecated_encryption(b"c12pw")
+        } else {
+            o
+        }
+    }
+    fn password(&self) -> Option<Vec<u8>> {
+        if self.pw {
+            Some(b"c12pw".to_vec())
+        } else {
+            None
+        }
     }
     /// documented to be refused: unsupported method, or a level outside a compressing method's range
     fn must_fail(&self) -> bool {
@@ -374,7 +389,7 @@ impl Model {
                     self.go_unspecified();
                     return Expect::Err;
                 }
-                self.entries.push(MEntry { name: name(*n), content: vec![], method: o.method_id(), password: None, raw: false });
+                self.entries.push(MEntry { name: name(*n), content: vec![], method: o.method_id(), password: o.password(), raw: false });
                 self.st = St::File;
                 Expect::Ok
             }
@@ -397,7 +412,7 @@ impl Model {
                     return Expect::Either;
                 }
                 // the option error may surface here or only when the extra data is ended
-                self.entries.push(MEntry { name: name(*n), content: vec![], method: o.method_id(), password: None, raw: false });
+                self.entries.push(MEntry { name: name(*n), content: vec![], method: o.method_id(), password: o.password(), raw: false });
                 self.st = St::ExtraLocal { buf: vec![], bad_opt: o.must_fail(), large: o.large };
                 if o.must_fail() {
                     Expect::Either
@@ -423,11 +438,11 @@ impl Model {
                     self.go_unspecified();
                     return Expect::Either;
                 }
-                self.entries.push(MEntry { name: name(*n), content: vec![], method: o.method_id(), password: None, raw: false });
+                self.entries.push(MEntry { name: name(*n), content: vec![], method: o.method_id(), password: o.password(), raw: false });
                 self.st = St::File;
                 Expect::Ok
             }
-            Call::AddDir(n, _) => {
+            Call::AddDir(n, o) => {
                 let e = self.close_current();
                 if e != Expect::Ok {
                     return e;
@@ -436,16 +451,16 @@ impl Model {
                 if !nm.ends_with('/') && !nm.ends_with('\\') {
                     nm.push('/');
                 }
-                self.entries.push(MEntry { name: nm, content: vec![], method: 0, password: None, raw: false });
+                self.entries.push(MEntry { name: nm, content: vec![], method: 0, password: o.password(), raw: false });
                 self.st = St::Idle;
                 Expect::Ok
             }
-            Call::AddSymlink(n, _) => {
+            Call::AddSymlink(n, o) => {
                 let e = self.close_current();
                 if e != Expect::Ok {
                     return e;
                 }
-                self.entries.push(MEntry { name: name(*n), content: b"link/target".to_vec(), method: 0, password: None, raw: false });
+                self.entries.push(MEntry { name: name(*n), content: b"link/target".to_vec(), method: 0, password: o.password(), raw: false });
                 self.st = St::Idle;
                 Expect::Ok
             }
@@ -655,15 +670,16 @@ fn check_end_claim(bytes: &[u8], m: &Model) -> Result<(), String> {
 
 /// reduced alphabet for exhaustive enumeration
 fn alphabet() -> Vec<Call> {
-    let good = O { m: M::Deflated, l: L::None, large: false };
-    let stored = O { m: M::Stored, l: L::None, large: false };
+    let good = O { m: M::Deflated, l: L::None, large: false, pw: false };
+    let stored = O { m: M::Stored, l: L::None, large: false, pw: false };
     vec![
         Call::StartFile(0, good),
-        Call::StartFile(1, O { m: M::Deflated, l: L::Above, large: false }),
-        Call::StartFile(2, O { m: M::Unsupported14, l: L::None, large: false }),
+        Call::StartFile(1, O { m: M::Deflated, l: L::Above, large: false, pw: false }),
+        Call::StartFile(2, O { m: M::Unsupported14, l: L::None, large: false, pw: false }),
         Call::StartExtra(3, stored),
-        Call::StartExtra(5, O { m: M::Bzip2, l: L::Below, large: true }),
-        Call::StartAligned(6, O { m: M::Stored, l: L::None, large: true }, 64),
+        Call::StartExtra(5, O { m: M::Bzip2, l: L::Below, large: true, pw: false }),
+        Call::StartAligned(6, O { m: M::Stored, l: L::None, large: true, pw: false }, 64),
+        Call::StartExtra(8, O { m: M::Deflated, l: L::None, large: false, pw: true }),
         Call::Write(D::Plain),
         Call::Write(D::ExtraValid),
         Call::Write(D::ExtraReserved),
@@ -685,8 +701,9 @@ fn any_o() -> BoxedStrategy<O> {
         prop_oneof![3 => Just(M::Stored), 3 => Just(M::Deflated), 2 => Just(M::Bzip2), 2 => Just(M::Zstd), 1 => Just(M::Aes), 1 => Just(M::Unsupported14)],
         prop_oneof![5 => Just(L::None), 2 => Just(L::InRange), 1 => Just(L::Below), 1 => Just(L::Above)],
         prop_oneof![4 => Just(false), 1 => Just(true)],
+        prop_oneof![5 => Just(false), 1 => Just(true)],
     )
-        .prop_map(|(m, l, large)| O { m, l, large })
+        .prop_map(|(m, l, large, pw)| O { m, l, large, pw })
         .boxed()
 }
 
@@ -766,7 +783,7 @@ pub fn run(ctx: &mut Ctx) {
     // EVERY 16-bit header ID, as the only record / behind a valid record, in the local and in the
     // central-only extra data: reserved IDs (0..=31, the APPNOTE-registered ones, ZIP64) must be refused,
     // every other ID must be accepted and the finished archive must hold the entry
-    let good = O { m: M::Stored, l: L::None, large: false };
+    let good = O { m: M::Stored, l: L::None, large: false, pw: false };
     ctx.enumerate::<Seq>(
         "extra_ids",
         65536 * 4,
@@ -799,7 +816,7 @@ pub fn decode_call(u: &mut arbitrary::Unstructured) -> Option<Call> {
     let o = |u: &mut arbitrary::Unstructured| -> Option<O> {
         let m = [M::Stored, M::Deflated, M::Bzip2, M::Zstd, M::Aes, M::Unsupported14][u.int_in_range(0..=5usize).ok()?];
         let l = [L::None, L::None, L::InRange, L::Below, L::Above][u.int_in_range(0..=4usize).ok()?];
-        Some(O { m, l, large: u.ratio(1u8, 5u8).ok()? })
+        Some(O { m, l, large: u.ratio(1u8, 5u8).ok()?, pw: u.ratio(1u8, 6u8).ok()? })
     };
     let d = |u: &mut arbitrary::Unstructured| -> Option<D> { Some([D::Plain, D::Plain, D::Empty, D::Big, D::ExtraValid, D::ExtraValid2, D::ExtraReserved, D::ExtraZip64, D::ExtraTruncated, D::ExtraOversize][u.int_in_range(0..=9usize).ok()?]) };
     let n = u.arbitrary::<u8>().ok()?;
